@@ -25,16 +25,23 @@ def plan(tier, seed):
         specs.append({"name": "nd-%d" % b, "kind": "nd", "b": b, "n": 60 if tier == "quick" else 250, "timeout": 900})
     specs.append({"name": "cache", "kind": "cache", "n": 40 if tier == "quick" else 400, "timeout": 900})
     specs.append({"name": "singlemask", "kind": "singlemask", "nmax": 6 if tier == "quick" else 8, "timeout": 900})
+    # the repository's own tests as workload, with the ambient monitors of vf.ambient installed
+    specs.append({"name": "ambient-tests", "kind": "ambient-tests", "files": ['test_Spectrum.py', 'test_fs_from_data.py', 'test_Projection.py', 'test_LowPass.py', 'test_Subgenomes.py'], "timeout": 2400, "cpus": 4})
     return specs
 
 
 def required(tier):
-    return {"weights-exact": 10000, "project-1d": 800, "project-nd": 50, "mask-exact": 50, "total-conserved": 50,
+    r = {"weights-exact": 10000, "project-1d": 800, "project-nd": 50, "mask-exact": 50, "total-conserved": 50,
             "two-stage": 30, "axis-order": 30, "folded-project": 15, "upward-refused": 10, "cache-transparent": 20,
             "neutral-fixed-point": 30}
+    r.update({'ambient-project': 4, 'ambient-project-mask': 4, 'ambient-weights': 100})
+    return r
 
 
 def run(spec, rec):
+    if spec.get("kind") == "ambient-tests":
+        from vf import ambient
+        return ambient.run_tests_batch(spec, rec, 'C08')
     import dadi
     from dadi import Numerics, Spectrum
     seed = spec["seed"]
